@@ -246,6 +246,11 @@ def vec_owner(it, obj):
     return obj.name
 
 
+@model("std::vec::Vec::<T>::with_capacity", doc="empty vector (capacity is not modelled)")
+def vec_with_capacity(it, args, n, f):
+    return VecV(VecObj(it.fresh("vec"), [], None))
+
+
 @model("std::vec::Vec::<T>::new", doc="empty vector")
 def vec_new(it, args, n, f):
     return VecV(VecObj(it.fresh("vec"), [], None))
